@@ -171,6 +171,14 @@ def record(cfg: dict, seed: int, terms: dict) -> sweep.SweepLog:
     cp = mp.quiet(compressibility_combined_func, p, so, phi, sw, pvt)
     cpa = mp.quiet(compressibility_combined_func, p, so, a * phi, sw, pvt)
     al = mp.quiet(alpha_multiphase, p, so, phi, sw, pvt, kr)
+    # end-point saturations written as integers (So = 0 or 1 as Python ints / an integer array)
+    try:
+        c_int0 = mp.quiet(compressibility_combined_func, p, np.zeros(len(p), dtype=np.int64), phi, sw, pvt)
+        c_flt0 = mp.quiet(compressibility_combined_func, p, np.zeros(len(p)), phi, sw, pvt)
+        c_int0 = np.asarray(c_int0, dtype=float)
+    except Exception:  # noqa: BLE001
+        c_int0 = np.full(len(p), np.nan)
+        c_flt0 = np.zeros(len(p))
     pvt_t, kr_t = mp.frames(P, tab["cols"], so_t, kr_so, kr_cols, sw, as_frame=bool(i % 2 == 0))
     fp = mp.from_table(pvt_t, kr_t, rho, phi, sw, float(P[-1]))
     tab_alpha = np.asarray(fp.pvt_props["alpha"], float)
@@ -189,7 +197,7 @@ def record(cfg: dict, seed: int, terms: dict) -> sweep.SweepLog:
         scale = s_up[j] + s_dn[j]
         ref = s_up[j] - s_dn[j]
         agree = {"cdiff": quant.e15(cp[j], ref, scale), "phi": quant.e15(cpa[j], a * cp[j], a * scale),
-                 "lam": quant.e15(lam[j], doc[j], doc[j])}
+                 "lam": quant.e15(lam[j], doc[j], doc[j]), "intso": quant.e15(c_int0[j], c_flt0[j], scale)}
         raw = {"p": float(p[j]), "So": float(so[j]), "c": float(cp[j]), "storage_difference": float(ref),
                "storage_scale": float(scale), "lambda": float(lam[j]), "documented_lambda": float(doc[j]),
                "alpha": float(al[j])}
